@@ -2,17 +2,17 @@ SPECIFICATION MCSpec
 CONSTANTS
   Nib = {0, 1}
   KeyLen = 2
-  Names = {"a", "s"}
+  Names = {"a"}
   Main = {"a"}
-  Opts <- OptsAS
+  Opts <- OptsTeeth
   MaxMaj = 3
   MaxMin = 1
   MaxForks = 0
   MaxTouch = 1
-  InitConts <- InitAS
+  InitConts <- InitA1
   InFlightReads = FALSE
-  AlignedOnly = TRUE
-  StorageUnchanged <- MutStorageUnchanged
+  AlignedOnly = FALSE
+  DelLimit <- MutDelLimit
 INVARIANT RetainedReadable
 INVARIANT PrunedNeverDifferent
 INVARIANT NoWrongNode
